@@ -101,8 +101,21 @@ def run(ctx):
             # one lookup in three goes far deeper (to depth 26), where tile edges are of the order of 1e-7 rad and any absolute
             # tolerance in the containment arithmetic would swallow whole tiles
             dmax = ctx.rng.randint(5, 10) if it_ % 3 else ctx.rng.randint(18, 26)
+            if it_ % 3 == 1:
+                dmax = ctx.rng.randint(11, 15)
             RR = dmax + 3
             i, j = 2 * ctx.rng.randrange(2 ** (RR - 1)) + 1, 2 * ctx.rng.randrange(2 ** (RR - 1)) + 1
+            if it_ % 3 == 1:
+                # ... a third of them close to (not on) the equator - the diamond |i - S/2| + |j - S/2| = S/2 inscribed in the square -
+                # where the tiles' edges bend most
+                S_ = 2 ** RR
+                off_ = ctx.rng.choice([2, 4, 10, 30, 100, 400]) * ctx.rng.choice([-1, 1])
+                a_ = abs(i - S_ // 2)
+                b_ = S_ // 2 - a_ + off_
+                if 0 < b_ < S_ // 2:
+                    j = S_ // 2 + ctx.rng.choice([-1, 1]) * b_
+                    j |= 1
+                    j = min(S_ - 1, max(1, j))
             v = psi.vec(i, j, RR)
             lon, lat = map(float, lattice.vec_to_lonlat(v))
             prev = None
@@ -118,12 +131,28 @@ def run(ctx):
                     ctx.violation("C12:tile_for_point:containment-deep", "interior point (%d, %d)/2^%d [%s] depth %d: returned %s, the cell holding it is %s" % (i, j, RR, csname, d, pos, exp), {"cs": csname, "point": (i, j, RR)})
                 prev = pos
         # ---- (c) the fractional pixel
-        for _ in range(90 if q else 1200):
+        for _ in range(170 if q else 1500):
             d = ctx.rng.choice([0, 1, 1, 2, 3, 4, 6, 8])
             sub = ctx.rng.choice([0, 1, 3])                      # pixel centres exactly, or sub-pixel offsets
             RR = d + 9 + sub
             i, j = 2 * ctx.rng.randrange(2 ** (RR - 1)) + 1, 2 * ctx.rng.randrange(2 ** (RR - 1)) + 1
-            if ctx.rng.random() < 0.6:
+            if ctx.rng.random() < 0.45:
+                # close to (not on) one of the meridians lon = k pi/2 (the centre cross of the square: cos or sin of the longitude
+                # vanishes there) or lon = pi/4 + k pi/2 (its diagonals); move the point to within a fraction of a pixel .. a few pixels of one
+                S_ = 2 ** RR
+                w_ = ctx.rng.choice([1, 1, 3, 7, 15, 33, 129])                                 # odd offset in lattice units: a fraction of a pixel to a few pixels
+                kind_ = ctx.rng.choice(["cross-x", "cross-x", "cross-y", "cross-y", "diag", "anti"])
+                if kind_ == "cross-x":
+                    i = min(S_ - 1, max(1, S_ // 2 + ctx.rng.choice([-1, 1]) * w_))
+                elif kind_ == "cross-y":
+                    j = min(S_ - 1, max(1, S_ // 2 + ctx.rng.choice([-1, 1]) * w_))
+                elif kind_ == "diag":
+                    j = min(S_ - 1, max(1, i + ctx.rng.choice([-1, 1]) * (w_ + 1)))
+                else:
+                    j = min(S_ - 1, max(1, S_ - i + ctx.rng.choice([-1, 1]) * (w_ + 1)))
+                i |= 1
+                j |= 1
+            elif ctx.rng.random() < 0.6:
                 # bias towards the borders of the tile's pixel grid (rows / columns 0-4 and 251-255), where stamp
                 # clipping and neighbouring-tile effects live
                 def edge(coord):
@@ -140,6 +169,9 @@ def run(ctx):
             if abs(lat) > np.pi / 2 - np.radians(1.0):
                 continue
             ctx.count()
+            near_quarter = min(abs((lon - kq_ * np.pi / 2 + np.pi) % TWOPI - np.pi) for kq_ in range(4))
+            if near_quarter < np.radians(0.2):
+                ctx.add_note("pixel_lookups_within_0.2deg_of_a_quarter_meridian")
             shift = ctx.rng.choice([0, 0, 1, -1, 2, -2, 3, -3]) * TWOPI     # any real longitude: the same point
             lon_q = lon + shift
             try:
@@ -167,6 +199,50 @@ def run(ctx):
             if not (err <= 2.0):
                 ctx.violation("C12:pixel_for_point:position", "depth %d [%s] lat %.5f lon %.5f (%+d turns): returned pixel (x %.2f, y %.2f), the nearest pixel centre is (col %d, row %d)"
                               % (d, csname, lat, lon, round(shift / TWOPI), float(x), float(y), c, r), {"cs": csname, "depth": d, "lat": lat, "lon": lon_q})
+    def threaded():
+        """Lookups are pure functions of their arguments: the answers are the same when several threads of one process ask at the
+        same time (an interpreter switching threads every few bytecodes, as a busy server would)."""
+        import sys as _sys
+        import threading as _th
+        rng = __import__("random").Random(ctx.seed + 12)
+        qs = []
+        for csname, cs in toastlat.coordsystems():
+            psi = toastlat.psi_for(t, csname)
+            for _ in range(30 if q else 200):
+                d = rng.randint(2, 9)
+                RR = d + 2
+                i, j = 2 * rng.randrange(2 ** (RR - 1)) + 1, 2 * rng.randrange(2 ** (RR - 1)) + 1
+                lon, lat = map(float, lattice.vec_to_lonlat(psi.vec(i, j, RR)))
+                qs.append((csname, cs, d, lat, lon, (d, i >> (RR - d), j >> (RR - d))))
+        got = {}
+
+        def worker(k):
+            for n_, (csname, cs, d, lat, lon, exp) in enumerate(qs):
+                if n_ % 4 == k:
+                    for rep_ in range(3):
+                        try:
+                            got[(n_, rep_)] = tuple(toast.toast_tile_for_point(d, lat, lon, coordsys=cs).pos)
+                        except Exception as e:  # noqa
+                            got[(n_, rep_)] = repr(e)
+        old_int = _sys.getswitchinterval()
+        _sys.setswitchinterval(1e-6)
+        try:
+            ths = [_th.Thread(target=worker, args=(k,)) for k in range(4)]
+            # the four threads work on disjoint questions, at the same time
+            for th in ths:
+                th.start()
+            for th in ths:
+                th.join()
+        finally:
+            _sys.setswitchinterval(old_int)
+        for (n_, rep_), pos in sorted(got.items()):
+            csname, cs, d, lat, lon, exp = qs[n_]
+            ctx.count()
+            if pos != exp:
+                ctx.violation("C12:tile_for_point:concurrent-threads", "lookup depth %d lat %.5f lon %.5f [%s] asked while three other threads were looking up other points: returned %s, "
+                              "the cell holding the point is %s" % (d, lat, lon, csname, pos, exp), {"cs": csname, "depth": d, "lat": lat, "lon": lon})
+                break
+    threaded()
     gens = [work(n_, c_) for n_, c_ in toastlat.coordsystems()]
     while gens:
         for g in list(gens):
